@@ -117,9 +117,9 @@ var c16OutcomeNames = [nOutcomes]string{"ok", "err", "short", "skipped"}
 
 type c16Stats struct {
 	progs, steps, finalDrains, aliasChecked, errUnchanged, maxLen, maxOps, dangerousRun int64
-	ops                                                                               [c16NOps][nOutcomes]int64
-	inits                                                                             [8]int64
-	nclass                                                                            [17]int64
+	ops                                                                                 [c16NOps][nOutcomes]int64
+	inits                                                                               [8]int64
+	nclass                                                                              [17]int64
 }
 
 var c16stats c16Stats
